@@ -8,7 +8,9 @@ CLAIMED = {
     "C10": dict(
         text="Seeded search over histories <value> <copy ops> <element sequence> with the scheduler deciding when each "
              "lazy copy / lazy result is forced relative to each element application; every untouched reference is "
-             "compared with a structural model built before the real value existed. Evidence, not proof.",
+             "compared with a structural model built before the real value existed; variables are read and written by "
+             "running program text and must stay bound to what they denoted unless assigned to; lazy values computed by "
+             "transpiled code must denote what a fresh interpreter computes for them. Evidence, not proof.",
         note="Trusts the harness's structural equality (Fraction-exact numbers, list == LazyList) and that the "
              "generated argument domain (ints, rationals, short strings, nested/lazy lists) is the statement's.",
         tech="deterministic simulation: seeded schedule of force/close/observe events interleaved with element "
@@ -18,15 +20,17 @@ CLAIMED = {
         text="Seeded search over read histories (explicit ?, implicit pops of arity 1-3, reads inside lambdas / named "
              "functions / deferred lazy maps forced at scheduler-chosen points) against a cursor model, with the stdin "
              "seam faulted (EOF, OSError, blank) when there are no inputs. Evidence, not proof.",
-        note="Call-scope clause is judged order-agnostically; stdin that has lines is recorded, not judged.",
+        note="A call's cycle is judged relative to the stack its body sees (top first): the statement gives calls no "
+             "starting point or direction. stdin that has lines is recorded, not judged.",
         tech="deterministic simulation: seeded read histories with deferred forcing and stdin fault injection, "
              "integer-cursor reference model, replay file",
         ref="DESIGN.md section 4, C11"),
     "C12": dict(
         text="Seeded search over sessions of generated terminating programs (break/continue at every legal position "
              "class, printing of lazy lists) executed statement by statement with scheduler-placed force/close events on "
-             "live lazy values; the four bookkeeping depths and the top-level context value are asserted after every "
-             "statement and event. Evidence, not proof.",
+             "live lazy values and injected element failures; the four bookkeeping depths and the top-level context value "
+             "are asserted after every statement and event. Three drivers: statement-wise, execute_vyxal, a REPL session "
+             "on the stdin seam; cases may carry an earlier execution that ended inside a structure. Evidence, not proof.",
         note="Programs that raise, exit or exceed the step budget did not finish normally and are discarded (counted).",
         tech="deterministic simulation: statement-wise execution under a step clock with seeded force/close scheduling "
              "of deferred lambdas, depth-tuple invariant, replay file",
@@ -41,11 +45,12 @@ CLAIMED = {
         ref="DESIGN.md section 4, C13"),
     "C14": dict(
         text="Bounded liveness against an instrumented infinite source: pipelines of 1-3 catalogued transformations, "
-             "demanded in seeded patterns (index, first-n, stepping, resumption, two consumers of one memo, abandonment), "
-             "must return within a pull budget and a step budget and stay under an affine pull bound. Evidence, not proof.",
+             "demanded in seeded patterns (index, first-n, slices, stepping, resumption, two consumers of one memo, stored "
+             "copies, abandonment; the source on the stack or arriving as a program input), must return within a pull "
+             "budget, a step budget and without blocking, and stay under an affine pull bound. Evidence, not proof.",
         note="Bounds carry slack (x2, +16 per stage) so that reading a few items ahead is never an alarm.",
         tech="deterministic simulation: pull-counting infinite source with pull/step budgets as the clock, seeded demand "
-             "schedules, affine-bound oracle, replay file",
+             "schedules, blocked-without-CPU detector, affine-bound oracle, replay file",
         ref="DESIGN.md section 4, C14"),
     "C19": dict(
         text="Seeded search over programs with printing / E / dagger / exec / request elements and canary-carrying "
